@@ -23,7 +23,7 @@ pub fn def() -> CheckDef {
             real: super::REAL_COMPONENTS,
             stub: super::STUB_COMPONENTS,
         },
-        runs: |t| if t.thorough() { 60_000 } else { 2_000 },
+        runs: |t| if t.thorough() { 300_000 } else { 12_000 },
         run,
         execute,
         expected_probes: &["excluded_dir_with_children", "excluded_non_ascii", "anchored_pattern", "unanchored_pattern", "doublestar_pattern", "class_pattern", "nothing_excluded", "excluded_some"],
